@@ -661,7 +661,35 @@ pub fn run(master: u64, runs: u64, sweep: u64, replay_dir: &str, tag: &str) -> J
         .with("wall_s", Json::Float(wall))
 }
 
+pub fn replay_by_index(b: &Json) -> i32 {
+    let g = |k: &str| b.num_of(k).unwrap_or(0) as u64;
+    let (seed, idx, runs, sweep) = (g("seed"), g("index"), g("runs"), g("extra"));
+    let buf = buf_size();
+    println!("replaying writer run index {} of seed {} (runs {}, sweep {})", idx, seed, runs, sweep);
+    let res = simcore::par::with_timeout(simcore::par::hang_limit(), move || {
+        let rec = if idx < runs { Some(build_run(seed, idx, buf)) } else { sweep_case(idx - runs, buf, sweep.saturating_sub(1)) };
+        rec.and_then(|r| check(&r).violation.map(|v| (v.class(), v.detail)))
+    });
+    match res {
+        None => {
+            println!("REPLAY-VIOLATION class=writer/hang// detail=the run did not finish within {} s", simcore::par::hang_limit().as_secs());
+            1
+        }
+        Some(Some((c, d))) => {
+            println!("REPLAY-VIOLATION class={} detail={}", c, d);
+            1
+        }
+        Some(None) => {
+            println!("REPLAY-CLEAN");
+            0
+        }
+    }
+}
+
 pub fn replay(j: &Json) -> i32 {
+    if let Some(b) = j.get("by_index") {
+        return replay_by_index(b);
+    }
     let rec = match WRecord::from_json(j) {
         Some(r) => r,
         None => {
